@@ -37,7 +37,7 @@ func checkC15(c *Check) {
 func (c *Check) notificationDecode(rule string) {
 	p := c.P
 	fn := p.Fn("Notification.decode")
-	if fn == nil || len(fn.Params) != 2 {
+	if fn == nil || !c.sig(rule, fn, 2) {
 		return
 	}
 	n, b := paramExpr(fn, 0), paramExpr(fn, 1)
@@ -261,7 +261,7 @@ func (c *Check) capabilityCodec(rule string) {
 func (c *Check) addPathTuple(rule string) {
 	p := c.P
 	fn := p.Fn("AddPathTuple.Decode")
-	if fn != nil && len(fn.Params) == 2 {
+	if fn != nil && c.sig(rule, fn, 2) {
 		recv, b := paramExpr(fn, 0), paramExpr(fn, 1)
 		b3 := byteLoad(b, 3)
 		isB3 := func(e *Expr) bool { return e.Key == b3.Key }
